@@ -191,7 +191,13 @@ def assemble(unit, canary=False):
             out.append("// ---- real item: %s %s" % (seg.file, " / ".join(seg.path)))
             if keep:
                 out.append("#[derive(%s)]" % ", ".join(keep))
+            first = sum(x.count("\n") + 1 for x in out) + 1
             emit(text)
+            if seg.exec_const_ensures:
+                pseudo = VFn(seg.file, seg.path, None, getattr(seg, "props", []) or ["C07"],
+                             "the constant's initialiser satisfies: " + seg.exec_const_ensures, name=seg.path[-1].split()[-1])
+                pseudo.no_canary = True
+                spans.append((first, sum(x.count("\n") + 1 for x in out), pseudo))
             info["items"].append({"item": " / ".join(seg.path), "file": seg.file, "sha256": sha256(raw)})
         elif isinstance(seg, VTrait):
             src, it = _extract(seg.file, seg.path)
@@ -382,7 +388,7 @@ def _run_unit(unit, tier, want_props=None, logdir=None, seed=0):
         owner = None
         for (a, b, vf) in spans:
             if a <= line <= b:
-                owner = ("fn", vf.fname)
+                owner = ("fn", id(vf))
         if owner is None:
             for (a, b, name) in lemma_spans:
                 if a <= line <= b:
@@ -406,16 +412,16 @@ def _run_unit(unit, tier, want_props=None, logdir=None, seed=0):
                 # the canary line itself
                 src_line = ctext.split("\n")[line - 1] if 0 < line <= ctext.count("\n") + 1 else ""
                 if "CANARY" in src_line:
-                    canary_hit.add(vf.fname)
+                    canary_hit.add(id(vf))
     obls = []
     for (a, b, vf) in spans:
         o = Obligation("verus:%s:%s" % (unit.name, vf.name or vf.fname), vf.name or vf.fname, vf.text, vf.props,
                        VERUS_BACKEND, kind=vf.kind)
         o.time_s = times.get(vf.fname, 0.0)
         o.checks = sum(1 for l in text.split("\n")[a - 1:b] if re.match(r"\s*(requires|ensures|invariant|decreases|assert)", l)) + 1
-        errs = by_fn.get(("fn", vf.fname), [])
+        errs = by_fn.get(("fn", id(vf)), [])
         _set_status(o, errs, text)
-        if o.status == DISCHARGED and vf.fname not in canary_hit:
+        if o.status == DISCHARGED and id(vf) not in canary_hit and not getattr(vf, "no_canary", False):
             o.status = UNDECIDED
             o.detail = "canary assert(false) at the start of the body was NOT refuted: precondition may be contradictory"
         obls.append(o)
